@@ -181,6 +181,8 @@ func layersOf(s *Spec) []Layer {
 		return []Layer{mk(s, "*errorspb.TestError", Leaf, "test error")}
 	case "uoptleaf":
 		return []Layer{mk(s, "*gen.UOpt", Leaf, S(0))}
+	case "uleafas":
+		return []Layer{mk(s, "*gen.ULeafAs", Leaf, S(0))}
 
 	case "wrap":
 		ls := []Layer{stackL(s)}
@@ -233,8 +235,11 @@ func layersOf(s *Spec) []Layer {
 		l := mk(s, "*contexttags.withContext", Transparent, "")
 		for i := 0; 2*i < len(s.S); i++ {
 			v := S(2*i + 1)
-			if s.I[i] == 1 {
+			switch s.I[i] {
+			case 1:
 				v = ""
+			case 3:
+				v = fmt.Sprint(len(v))
 			}
 			// logtags: adding a tag whose key exists replaces its value in place.
 			replaced := false
@@ -373,6 +378,14 @@ func layersOf(s *Spec) []Layer {
 		return []Layer{mk(s, "*gen.UWrapFmtOld", Full, S(0)+": "+causeText())}
 	case "rwrapfull":
 		return []Layer{mk(s, "*gen.RWrapFull", Full, S(0))}
+	case "uwrapasself":
+		return []Layer{mk(s, "*gen.UWrapAsSelf", Full, S(0)+": "+causeText())}
+	case "newfwerr":
+		sec := mk(s, "*secondary.withSecondaryError", Transparent, "")
+		sec.Hidden = []*Spec{s.X[0]}
+		sec2 := mk(s, "*secondary.withSecondaryError", Transparent, "")
+		sec2.Hidden = []*Spec{s.C}
+		return []Layer{stackL(s), sec, sec2, mk(s, "*errutil.withNewMessage", Full, "lit "+S(0)+" e="+Text(s.X[0])+": "+causeText())}
 	case "uhinter":
 		l := mk(s, "*gen.UWrapHinter", Transparent, "")
 		l.Hint, l.Detail = S(0), S(1)
@@ -404,6 +417,14 @@ func layersOf(s *Spec) []Layer {
 			t += "; " + Text(x)
 		}
 		l := mk(s, "*gen.UMulti", Leaf, t)
+		l.Multi = s.X
+		return []Layer{l}
+	case "umulticause":
+		t := S(0)
+		for _, x := range s.X {
+			t += "; " + Text(x)
+		}
+		l := mk(s, "*gen.UMultiCause", Leaf, t)
 		l.Multi = s.X
 		return []Layer{l}
 	case "rmulti":
